@@ -98,6 +98,8 @@ def make_scenarios(ctx, count):
             s = H.Scenario("%s%d" % (tag, i), meta=dict(frames=frames, cfg=cfg, style=style, pair=i, flow=use_flow, mtu_change=mtu_change))
             s.add("FILL " + fill)
             s.add("OPT failrc=%d" % failrc)
+            if i % 5 == 2:
+                s.add("OPT sloppy=1 failstyle=1")
             s.iface(0, **H.iface_kw(cfg)).glob(**G.global_kw(glob))
             grng = G.rng_for(ctx.seed, "C02gap", i) if i % 2 else None       # the same clock in both runs of the pair
             if grng is not None and grng.random() < 0.5:
